@@ -111,6 +111,7 @@ type fnExec struct {
 	havocked      []string
 	macros        map[string]bool
 	exhaustOnly   bool
+	curCall       *ssa.CallCommon
 	exitTag       string
 	pruned        int
 	caseIdx       int // -1: no case split; k: verifying case k of the contract's `cases`
